@@ -13,6 +13,9 @@ namespace AIToolbox::MDP {
         policy_.fill(1.0/getA());
     }
 
+    Policy::Policy(const Policy & p) :
+            PolicyInterface::Base(p.getS(), p.getA()), PolicyWrapper(policy_), policy_(p.policy_) {}
+
     Policy::Policy(const PolicyInterface::Base & p) :
             PolicyInterface::Base(p.getS(), p.getA()), PolicyWrapper(policy_), policy_(S, A)
     {
